@@ -68,6 +68,9 @@ fn effective(c: &Case) -> FactorCase {
             match u {
                 Unusable::NoElectricityGrid => {
                     lines.retain(|l| !(l.car == Car::ELECTRICIDAD && l.src == FSrc::RED));
+                    if lines.len() % 2 == 0 {
+                        lines.insert(0, FLine { car: Car::ELECTRICIDAD, src: FSrc::RED, dest: FDest::SUMINISTRO, step: FStep::B, f: [0.4, 2.0, 0.3], comment: String::new() });
+                    }
                     // electricity must still appear in the set (a set without any electricity
                     // factor is simply a set for buildings without electricity)
                     if !lines.iter().any(|l| l.car == Car::ELECTRICIDAD) {
@@ -86,7 +89,14 @@ fn effective(c: &Case) -> FactorCase {
                         Some(*car)
                     };
                     if let Some(car) = orphan {
-                        lines.push(FLine { car, src: FSrc::INSITU, dest: FDest::A_RED, step: FStep::A, f: [0.5, 0.5, 0.5], comment: String::new() });
+                        // the orphan line is an export factor or - two times in three - a RED-sourced line that is not the
+                        // step A supply factor (it must not pass for one)
+                        let (src, dest, step) = match car.idx() % 3 {
+                            0 => (FSrc::INSITU, FDest::A_RED, FStep::A),
+                            1 => (FSrc::RED, FDest::SUMINISTRO, FStep::B),
+                            _ => (FSrc::RED, FDest::A_RED, FStep::A),
+                        };
+                        lines.push(FLine { car, src, dest, step, f: [0.5, 0.5, 0.5], comment: String::new() });
                     }
                 }
             }
